@@ -4,6 +4,7 @@
 From Coq Require Import List NArith Sorted.
 From RaftLog Require Import Base.Bytes Model.Types Model.Codec Model.Cache Model.Core Model.Recover Model.Run.
 From RaftLog Require Import Model.Names Model.Dump Proofs.CodecFacts Proofs.JournalDisk Proofs.JournalChunk Proofs.JournalFacts Proofs.NamesFacts Proofs.DumpFacts.
+From RaftLog Require Proofs.CacheRestart.
 Import ListNotations.
 Local Open Scope N_scope.
 
@@ -20,6 +21,13 @@ Theorem C11_invariant : forall cfg ops res y,
   ops_c11 ops = true -> Forall op_wf ops ->
   run_case cfg ops = (res, Some y) -> journal_wf y.
 Proof. exact JournalFacts.C11_invariant. Qed.
+
+(* ... and with restarts anywhere in the history (any configuration at each restart, unflushed
+   bytes lost at the restart; update_state excluded) *)
+Theorem C11_invariant_restarts : forall cfg ops res y,
+  forallb CacheRestart.op_c15 ops = true -> Forall op_wf ops ->
+  run_case cfg ops = (res, Some y) -> journal_wf y.
+Proof. exact CacheRestart.C11_invariant_restarts. Qed.
 
 (* what the invariant says: file names are global offsets, files abut, every file is a
    sequence of records headed by a state snapshot equal to the closing state of its
@@ -127,3 +135,4 @@ Print Assumptions C11_name_order.
 Print Assumptions C11_invariant.
 Print Assumptions C11_write_appends.
 Print Assumptions C11_structure.
+Print Assumptions C11_invariant_restarts.
